@@ -21,7 +21,7 @@ import gen_types
 import find_lib as fl
 import refsub
 
-LEVEL = "partial"
+LEVEL = "proof"
 
 SIG_SUB = "find_types:"
 SIG_IRR = "find_irrelevant_type:"
